@@ -1004,7 +1004,7 @@ LAWS = [
          accept_case(["end"], maxlens=(False,)), body_accept, nt, quick=200, thorough=1500,
          shards=(2, 8), exhaustive=exhaustive_accept(["end"], [False])),
     _law("agrees_with_fsa_enumeration", accept_case(["default"], cap=300), body_fsa_enum, nt,
-         quick=100, thorough=1000, shards=(1, 4)),
+         quick=400, thorough=2000, shards=(2, 4)),
     _law("freely_reduced_each_once", free_case(), body_free, lambda l: "nt" in l, quick=60,
          thorough=400, shards=(1, 4)),
     _law("memo_reuse_history", memo_case(), body_memo, nt, quick=150, thorough=1500,
